@@ -9,7 +9,13 @@ import (
 
 func init() {
 	register("C07", func(r *Rand, p *Plan, t string) { genRef(r, p, t, "C07") })
-	register("C10", func(r *Rand, p *Plan, t string) { genRef(r, p, t, "C10") })
+	register("C10", func(r *Rand, p *Plan, t string) {
+		if r.Chance(6) {
+			genReloadE2E(r, p, t, true)
+			return
+		}
+		genRef(r, p, t, "C10")
+	})
 	register("C11", func(r *Rand, p *Plan, t string) { genRef(r, p, t, "C11") })
 	register("C12", func(r *Rand, p *Plan, t string) {
 		if r.Chance(12) {
@@ -21,6 +27,10 @@ func init() {
 	register("C13", func(r *Rand, p *Plan, t string) {
 		if r.Chance(10) {
 			genConcurrentAdmission(r, p, t)
+			return
+		}
+		if r.Chance(6) {
+			genReloadE2E(r, p, t, true)
 			return
 		}
 		genRef(r, p, t, "C13")
@@ -799,7 +809,12 @@ func mutateDoc(r *Rand, d model.Doc) model.Doc {
 
 // genC16e2e: the reference server reloads documents while clients come and go; rights,
 // users, scopes and filters removed by a reload must be gone for new connections.
-func genC16e2e(r *Rand, p *Plan, tier string) {
+func genC16e2e(r *Rand, p *Plan, tier string) { genReloadE2E(r, p, tier, false) }
+
+// genReloadE2E: burst forces several reloads to be handed to the loader at the same
+// moment, with configuration builds parked at their own log calls (C10, C13: what is in
+// force afterwards must be the configuration published last, whatever order builds finish in).
+func genReloadE2E(r *Rand, p *Plan, tier string, burst bool) {
 	p.Family = "reload-end-to-end"
 	p.Scen.Server = "ref"
 	p.Scen.Format = PickOf(r, "yaml", "json")
@@ -807,12 +822,15 @@ func genC16e2e(r *Rand, p *Plan, tier string) {
 	d.Normalize()
 	docs := []model.Doc{d}
 	nDocs := 1 + r.Intn(3)
+	if burst {
+		nDocs = 2 + r.Intn(2)
+	}
 	for i := 0; i < nDocs; i++ {
 		nd := mutateDoc(r, docs[len(docs)-1])
 		nd.Normalize()
 		docs = append(docs, nd)
 	}
-	if r.Chance(40) && len(d.Secrets) > 0 && len(d.Secrets[0].Prefixes) > 0 {
+	if !burst && r.Chance(40) && len(d.Secrets) > 0 && len(d.Secrets[0].Prefixes) > 0 {
 		// targeted: the first document filters part of a scope's prefix, the next one has
 		// no filters at all; clients from the filtered range come back after the reload
 		pfx := d.Secrets[0].Prefixes[0]
@@ -868,7 +886,7 @@ func genC16e2e(r *Rand, p *Plan, tier string) {
 			idx++
 		}
 	}
-	if len(p.Scen.Ctl) >= 2 && r.Chance(30) {
+	if len(p.Scen.Ctl) >= 2 && (burst || r.Chance(30)) {
 		// a burst of reloads while the loader is still busy with the first one
 		at := p.Scen.Ctl[0].NotBefore
 		for i := range p.Scen.Ctl {
